@@ -100,12 +100,12 @@ pub fn classes() -> &'static Vec<LexClass> {
         for (i, c) in ["// c ; x", "//", "///", "// /* open", "//*/ x", "// \" unterminated"].iter().enumerate() {
             v.push(LexClass { name: format!("comment:line{i}"), text: c.to_string(), expect: vec![], line_terminated: true });
         }
-        for p in ["pragma foo bar", "#pragma x y z", "pragma a; b /* c */", "pragma // x", "pragma \"q"] {
+        for p in ["pragma foo bar", "#pragma x y z", "pragma a; b /* c */", "pragma // x", "pragma \"q", "pragma\ttab after the keyword", "#pragma\tx", "pragma \t mixed gap", "pragma  two blanks"] {
             let mut c = lc(&format!("pragma:{p}"), p, "PRAGMA");
             c.line_terminated = true;
             v.push(c);
         }
-        for a in ["@ann a b", "@reversible", "@a.b c // d", "@a /* b", "@a \"q"] {
+        for a in ["@ann a b", "@reversible", "@a.b c // d", "@a /* b", "@a \"q", "@ann\ttab after the keyword"] {
             let mut c = lc(&format!("annotation:{a}"), a, "ANNOTATION");
             c.line_terminated = true;
             v.push(c);
@@ -173,7 +173,7 @@ fn fuses(a: &LexClass, b: &LexClass) -> bool {
 
 /// (the last two: every other member of the lexer's whitespace set - vertical tab, form feed,
 /// next line, left-to-right / right-to-left marks, line and paragraph separators)
-pub const SEPS: &[&str] = &["", " ", "\n", " /* t */ ", " // t\n", "\t\r\n  ", "\u{000B}\u{000C}", "\u{0085}\u{200E}\u{200F}\u{2028}\u{2029}"];
+pub const SEPS: &[&str] = &["", " ", "\n", " /* t */ ", " // t\n", "\t\r\n  ", "\u{000B}\u{000C}", "\u{0085}\u{200E}\u{200F}\u{2028}\u{2029}", "/*t*/"];
 
 fn sep_text(a: &LexClass, b: &LexClass, sep: usize) -> String {
     let mut s = match sep {
@@ -184,6 +184,8 @@ fn sep_text(a: &LexClass, b: &LexClass, sep: usize) -> String {
                 String::new()
             }
         }
+        // a comment directly against both neighbours (after `/` it would start a line comment)
+        8 if a.text.ends_with('/') => " /*t*/".to_string(),
         k => SEPS[k].to_string(),
     };
     if a.line_terminated && !s.starts_with('\n') {
@@ -275,8 +277,17 @@ fn check_sequence(seq: &[usize], seps: &[usize], obs: &mut Obs) {
                     format!("{text:?}: entry {i}: expected {:?}, table has {:?} (expected {} entries, got {})", expected.get(i), toks.get(i), expected.len(), toks.len()),
                 );
             }
-            for (k, _) in &toks {
-                let _ = k;
+            // the same lexemes as the parser sees them (trivia dropped, jointness recorded): the leaves of
+            // the tree are these tokens, glued into one operator only where nothing separates them
+            if bad.is_none() && errs.is_empty() {
+                match guard(|| super::common::leaf_token_problems(&text)) {
+                    Ok(ps) => {
+                        for (clause, d) in ps {
+                            obs.violate(format!("parser-input/{clause}/{}", cell_of(0)), format!("{text:?}: {d}"));
+                        }
+                    }
+                    Err(p) => obs.count(&format!("parse-panicked(C01):{}", p.site())),
+                }
             }
         }
     }
